@@ -115,3 +115,77 @@ def nontrivial_kv(lines):
             if tie or marker_not_newest:
                 return True
     return False
+
+
+LIFECYCLE = ['close_active', 'create_active', 'restore_active', 'close_active_bg', 'create_active_bg',
+             'restore_active_bg', 'force always', 'force never', 'force nonempty', 'force ge3', 'free',
+             'offload 100000000 0', 'offload 100000000 1', 'offload 100000000 2', 'fsync', 'settle', 'settle']
+
+
+def maint_scenario(rng, size='quick', **over):
+    """C04: data operations interleaved with every lifecycle / maintenance operation in every active-blob
+    state; all queries after every step"""
+    c, line = cfg_line(rng, dup=rng.choice([0, 1, 1]), **over)
+    klen = c['key']
+    keys = mk_keys(rng, klen, rng.randint(2, 4))
+    absent = absent_keys(rng, klen, keys)
+    n_ops = rng.randint(6, 14) if size == 'quick' else rng.randint(10, 36)
+    lines = [line, 'states']
+    seed = 1
+    for _ in range(n_ops):
+        x = rng.random()
+        if x < 0.5:
+            op = rng.choice(LIFECYCLE)
+            lines.append(op)
+            lines.append('states')
+            if op == 'settle':
+                lines.append('res')
+        elif x < 0.55:
+            lines += [rng.choice(['restart', 'restart lazy']), 'states']
+        else:
+            k = rng.choice(keys)
+            ts = rng.choice(TS_POOL)
+            if rng.random() < 0.25:
+                lines.append(f'd {k} {ts} {rng.choice(["-", "e", "m:01"])} {rng.choice([0, 1])}')
+            else:
+                lines.append(f'w {k} {ts} {rng.choice(METAS_W)} {rng.choice(DLENS)} {seed % 250 + 1}')
+                seed += 1
+            lines.append('states')
+        lines += queries('all', keys, absent)
+        lines.append('alive')
+    return lines
+
+
+BG_CALLS = ['close_active_bg', 'create_active_bg', 'restore_active_bg', 'force always', 'force never',
+            'force nonempty', 'close_active', 'create_active', 'restore_active', 'free']
+
+
+def worker_scenario(rng, size='quick', **over):
+    """C13: arbitrary public calls (all *_in_background variants in every active-blob state, force updates,
+    data ops), then an overflow of the active blob past the debounce interval, then close"""
+    maxdata = rng.choice([2, 3, 5])
+    c, line = cfg_line(rng, dup=1, maxdata=maxdata, **over)
+    klen = c['key']
+    keys = mk_keys(rng, klen, 3)
+    lines = [line, 'states']
+    seed = 1
+    n_calls = rng.randint(2, 8) if size == 'quick' else rng.randint(4, 20)
+    for _ in range(n_calls):
+        if rng.random() < 0.7:
+            lines += [rng.choice(BG_CALLS), 'states', 'alive']
+        else:
+            k = rng.choice(keys)
+            if rng.random() < 0.2:
+                lines += [f'd {k} {rng.choice(TS_POOL)} - {rng.choice([0, 1])}', 'states']
+            else:
+                lines += [f'w {k} {rng.choice(TS_POOL)} - 5 {seed}', 'states']
+                seed += 1
+    # overflow: the active blob is filled beyond its record limit, then a write after the debounce interval
+    lines += ['wait 260']
+    for _ in range(maxdata + rng.randint(0, 2)):
+        lines += [f'w {rng.choice(keys)} {rng.choice(TS_POOL)} - 5 {seed}', 'states']
+        seed += 1
+    lines += ['wait 260', f'w {keys[0]} 9 - 5 {seed}', 'states', 'alive', 'settle', 'res']
+    lines += queries('c15', keys, [])
+    lines += ['close', 'open', 'states', 'counts']
+    return lines
